@@ -540,6 +540,52 @@ def no_wedge_shortcut_clause(model, rep):
     rep.floor("NOWEDGE", 2, "(single_axis and dual_axis)")
 
 
+def valid_range_clause(model, rep):
+    """Every tilt range lo < hi inside [-90, 90] (boundaries included: a series that reaches 90 degrees on one side is a valid, one-sided wedge) is accepted by
+    the tilt models: no raising path of a model constructor is feasible for such a range.  Decided by evaluating the path conditions of every `raise` on
+    representative angles (the conditions are comparisons of lo / hi with constants: thresholds, points between and beyond them)."""
+    from fractions import Fraction
+    import itertools
+    n = 0
+    for fn in model.all_functions:
+        if not fn.module.relpath.startswith("acryo/tilt/") or fn.name != "__init__" or fn.cls is None:
+            continue
+        rng_params = [p for p in fn.param_names()[1:] if "tilt_range" in p or p == "tilt"]
+        if len(rng_params) != 1 or not any(isinstance(x, ast.Raise) for x in ast.walk(fn.node)):
+            continue
+        p = rng_params[0]
+        n += 1
+        rep.instance("RANGE", fn.loc())
+        dom = AffineDomain(model)
+        it = Interp(model, dom, depth=0)
+        bad: list = []
+
+        def on_raise(interp, f_, st, env, _fn=fn, _bad=bad, _dom=dom, _p=p):
+            if f_ is not _fn:
+                return
+            pcs = [c_ for c_ in env.get("$pc", ()) if hasattr(c_, "diff")]
+            pts = (-90, -89, -60, 0, 35, 60, 89, 90)
+            for lo_, hi_ in itertools.product(pts, pts):
+                if lo_ >= hi_:
+                    continue
+                asg = {f"{_p}_lo": Fraction(lo_), f"{_p}_hi": Fraction(hi_)}
+                vals = [_dom.eval_form(c_.diff, asg) for c_ in pcs]
+                if all(v_ is not None and {"<": v_ < 0, "<=": v_ <= 0, ">": v_ > 0, ">=": v_ >= 0, "==": v_ == 0, "!=": v_ != 0}[c_.op] for v_, c_ in zip(vals, pcs)):
+                    _bad.append((st, (lo_, hi_)))
+                    return
+
+        it.on_raise.append(on_raise)
+        try:
+            it.run(fn, args={p: Tup([dom.sym(f"{p}_lo"), dom.sym(f"{p}_hi")])})
+        except Exception as e:  # pragma: no cover
+            rep.note(f"{fn.qual}: not evaluated ({e!r})")
+            continue
+        rep.ob("RANGE", fn.anchor, "every tilt range lo < hi within [-90, 90], boundaries included, is accepted", not bad,
+               (f"`{norm_src(bad[0][0])[:60]}` is reached for the valid range {bad[0][1]}" if bad else ""), node=(bad[0][0] if bad else fn.node), fn=fn,
+               clause="3 models", stmt=(None if bad else f"def {fn.cls.name}.__init__ range guard"))
+    rep.floor("RANGE", 1, "(SingleAxis.__init__ validates the tilt range)")
+
+
 def check(model, rep, tier):
     rep.decided += ["C08.1 per-axis index grid is FFT-ordered for even and odd sizes in all three grid builders", "C08.2 plane normals are mapped W->M and then divided by the box shape in all four mask builders",
                     "C08.3 non-strict predicate keeps DC / is even", "C08.4 no-wedge, union, axis tables", "C08.5 every accepted tilt spelling reaches the stored tilt model"]
@@ -550,6 +596,7 @@ def check(model, rep, tier):
     models_clause(model, rep, funcs)
     selection_clause(model, rep, funcs)
     no_wedge_shortcut_clause(model, rep)
+    valid_range_clause(model, rep)
     from .generic import axis_convention_obligations
     axis_convention_obligations(model, rep, ["acryo/backend/_missing_wedge.py", "acryo/tilt/_utils.py", "acryo/_utils.py", "acryo/tilt/_single.py", "acryo/tilt/_base.py"],
                                 "1 grid", floor=3)
